@@ -246,7 +246,8 @@ pub fn accrued_of(s: &Snap, a: &str) -> Uint512 {
 
 impl C15 {
     fn compare(&self, s: &Snap, out: &mut Out, when: &str) {
-        for (a, _) in s.holders.iter() {
+        let addrs: std::collections::BTreeSet<&String> = s.holders.keys().chain(self.expected.keys()).collect();
+        for a in addrs {
             let acc = accrued_of(s, a) * e18();
             let exp = self.expected.get(a).cloned().unwrap_or_default();
             let eps = self.eps.get(a).cloned().unwrap_or_default();
@@ -281,17 +282,18 @@ impl Monitor for C15 {
                 // contract newly recorded
                 let claimed = post.prev_reward_balance.saturating_sub(pre.prev_reward_balance);
                 self.updates += 1;
-                let total = Uint512::from(pre.reward_total_balance);
+                // "holdings" are the bSei token balances (the reward contract's own records are what is being judged)
+                let total = Uint512::from(pre.bsei.supply.max(1));
                 let mut n_holders = 0;
-                for (a, h) in pre.holders.iter() {
-                    if h.balance == 0 {
+                for (a, bal) in pre.bsei.balances.iter() {
+                    if *bal == 0 {
                         continue;
                     }
                     n_holders += 1;
-                    let term = Uint512::from(h.balance) * Uint512::from(claimed) * e18() * e18() / total;
+                    let term = Uint512::from(*bal) * Uint512::from(claimed) * e18() * e18() / total;
                     *self.expected.entry(a.clone()).or_default() += term;
                     // truncated index increment: less than balance * 1e-18 coin
-                    *self.eps.entry(a.clone()).or_default() += Uint512::from(h.balance) * e18();
+                    *self.eps.entry(a.clone()).or_default() += Uint512::from(*bal) * e18();
                 }
                 out.count("c15.updates_with_holders");
                 if n_holders >= 3 {
